@@ -105,6 +105,15 @@ var c15Forms = []string{
 	"rs[*].[let $a = id, $b = k, $c = n, $d = id, $e = k, $f = n in [$a, $f]]",
 	"let $q = `0` in $a", "let $q = `0` in [$q, $h]", "let $z = a in {x: $z, y: $e}", "let $a = `7` in let $q = `0` in [$a, $q]", "let $q = `0`, $r = `1` in $j",
 	"let $a = `7`, $b = `7`, $c = `7`, $d = `7`, $e = `7`, $f = `7` in let $q = `0` in [$a, $b, $c, $d, $e, $f]", "[let $q = a in $q, let $r = b in $f]",
+	// lets inside the binding expressions of a let with several bindings (bindings are evaluated in map order)
+	"let $a = 'a0', $b = 'b0', $c = 'c0' in let $a = (let $t = 't' in 'a1'), $b = (let $t = 't' in 'b1') in [$a, $b, $c]",
+	"let $a = (let $t = a in $t), $b = (let $u = b in $u), $c = (let $v = c in $v) in [$a, $b, $c]",
+	"let $a = (let $t = a in [$t]), $b = (let $t = b in [$t]) in {x: $a, y: $b}",
+	"let $p = 'p' in let $a = (let $t = $p in [$t, 'a']), $b = (let $t = $p in [$t, 'b']), $c = $p in [$a, $b, $c]",
+	"let $a = rs[*].[let $i = id in $i], $b = rs[*].[let $k = k in $k] in [$a, $b]",
+	"let $a = (let $x = a, $y = b in [$x, $y]), $b = (let $x = c, $y = d in [$x, $y]) in [$a, $b]",
+	"let $a = a, $b = (let $a = b in $a), $c = (let $a = c in $a) in [$a, $b, $c]",
+	"{x: let $a = (let $t = a in $t), $b = b in [$a, $b], y: let $a = a, $b = (let $t = b in $t) in [$a, $b]}",
 	"merge(@, {a: `1`}, {a: `2`})", "merge({a: `1`, b: `1`}, {b: `2`, c: `2`}, {c: `3`, a: `3`})", "merge(a, b, c)", "merge(o1, o2, o1)", "merge(o2, o1)",
 	"group_by(rs, &k)", "group_by(rs, &k).*", "group_by(rs, &k) | keys(@) | sort(@)", "group_by(rs, &to_string(n))", "from_items(ps)", "from_items(items(o1))", "from_items(`[[\"a\",1],[\"b\",2],[\"a\",3]]`)", "from_items(zip(keys(o1), values(o1)))",
 	"sort(keys(o1))", "sort(values(o2))", "length(keys(@))", "sort_by(items(o1), &[0])", "sort_by(rs, &k)[*].id", "sort_by(rs, &n)[*].id", "max_by(rs, &n).id", "min_by(rs, &n).id", "rs[*].[id, k]", "rs[?k == 'x'].id",
